@@ -1,4 +1,159 @@
-import SSModel.Target
-/-! C08 — placeholder; theorems follow. -/
+import SSLemmas.Target
+/-!
+# C08 — the text of a `with … as <target>` target
+
+`SS.Target.describeTarget` is a line-by-line transcription of `describe_assignment_target` (its agreement with the
+real function is measured on every run over generated and standard-library `with` statements).  Here: for the
+documented grammar — names of any scope, attributes, subscripts and positional calls over arbitrarily nested load
+expressions, tuple unpacking of any arity nested to any depth, one starred element anywhere — the machine run on
+what the compiler emits (`compileStore`, a model of CPython 3.12's code generation for store targets, itself
+compared with `dis` on every run) returns exactly the source text, with the fuel bound the transcription uses;
+and an opcode outside the supported set makes the result `None`, never a wrong string.
+-/
 open SS.Target
-theorem C08_placeholder : True := trivial
+
+theorem c08_head_expr : ∀ (e : Expr), ∃ i r, compileExpr e = i :: r ∧ (i.op == "POP_TOP") = false ∧ (i.op == "STORE_FAST") = false
+  | .var sc s => ⟨{ op := loadOp sc, argval := s }, [], by simp [compileExpr], by cases sc <;> simp [loadOp], by cases sc <;> simp [loadOp]⟩
+  | .const r => ⟨{ op := "LOAD_CONST", argrepr := r }, [], by simp [compileExpr], by simp, by simp⟩
+  | .attr e a => by
+    obtain ⟨i, r, h, h1, h2⟩ := c08_head_expr e
+    exact ⟨i, r ++ [{ op := "LOAD_ATTR", argval := a }], by simp [compileExpr, h], h1, h2⟩
+  | .subscr c i => by
+    obtain ⟨i0, r, h, h1, h2⟩ := c08_head_expr c
+    exact ⟨i0, r ++ compileExpr i ++ [{ op := "BINARY_SUBSCR" }], by simp [compileExpr, h], h1, h2⟩
+  | .call true f as => ⟨{ op := "PUSH_NULL" }, compileExpr f ++ compileArgs as ++ extPrefix as.length ++ [{ op := "CALL", arg := as.length }],
+      by simp [compileExpr], by decide, by decide⟩
+  | .call false f as => by
+    obtain ⟨i0, r, h, h1, h2⟩ := c08_head_expr f
+    exact ⟨i0, r ++ compileArgs as ++ extPrefix as.length ++ [{ op := "CALL", arg := as.length }], by simp [compileExpr, h], h1, h2⟩
+
+/-- The main theorem: every well-formed target renders to its source text. -/
+theorem C08_target (t : Tgt) (hw : WF t) (rest : List Insn) :
+    describeTarget (compileStore t ++ rest) = some (renderTgt t) := by
+  have hfuel : need t ≤ 2 * (compileStore t ++ rest).length + 2 := by
+    have := need_le t; simp only [List.length_append]; omega
+  have hrun := nt_tgt t _ rest hw hfuel
+  cases t with
+  | var sc s =>
+    cases sc <;> simp only [compileStore, storeOp, List.singleton_append, describeTarget, renderTgt] at hrun ⊢
+    · simp
+    all_goals (simp only [List.length_cons] at hrun ⊢; rw [hrun]; simp)
+  | attr e a =>
+    obtain ⟨i, r, h, h1, h2⟩ := c08_head_expr e
+    have hc : compileStore (.attr e a) ++ rest = i :: (r ++ [{ op := "STORE_ATTR", argval := a }] ++ rest) := by
+      simp [compileStore, h]
+    rw [hc] at hrun ⊢
+    simp only [describeTarget, h1, h2, Bool.false_eq_true, if_false]
+    rw [hrun]
+  | subscr c ix =>
+    obtain ⟨i, r, h, h1, h2⟩ := c08_head_expr c
+    have hc : compileStore (.subscr c ix) ++ rest = i :: (r ++ compileExpr ix ++ [{ op := "STORE_SUBSCR" }] ++ rest) := by
+      simp [compileStore, h]
+    rw [hc] at hrun ⊢
+    simp only [describeTarget, h1, h2, Bool.false_eq_true, if_false]
+    rw [hrun]
+  | tuple ts =>
+    by_cases hx : 256 ≤ ts.length
+    · have hc : compileStore (.tuple ts) ++ rest
+          = { op := "EXTENDED_ARG" } :: ({ op := "UNPACK_SEQUENCE", arg := ts.length } :: (compileStores ts ++ rest)) := by
+        simp [compileStore, extPrefix, hx]
+      rw [hc] at hrun ⊢
+      simp only [describeTarget]
+      rw [hrun]; simp
+    · have hc : compileStore (.tuple ts) ++ rest = { op := "UNPACK_SEQUENCE", arg := ts.length } :: (compileStores ts ++ rest) := by
+        simp [compileStore, extPrefix, hx]
+      rw [hc] at hrun ⊢
+      simp only [describeTarget]
+      rw [hrun]; simp
+  | starred b s a =>
+    by_cases hx : 256 ≤ b.length + 256 * a.length
+    · have hc : compileStore (.starred b s a) ++ rest
+          = { op := "EXTENDED_ARG" } :: ({ op := "UNPACK_EX", arg := b.length + 256 * a.length } :: (compileStores b ++ compileStore s ++ compileStores a ++ rest)) := by
+        simp [compileStore, extPrefix, hx]
+      rw [hc] at hrun ⊢
+      simp only [describeTarget]
+      rw [hrun]; simp
+    · have hc : compileStore (.starred b s a) ++ rest
+          = { op := "UNPACK_EX", arg := b.length + 256 * a.length } :: (compileStores b ++ compileStore s ++ compileStores a ++ rest) := by
+        simp [compileStore, extPrefix, hx]
+      rw [hc] at hrun ⊢
+      simp only [describeTarget]
+      rw [hrun]; simp
+
+theorem C08_name (sc : Scope) (s : String) (rest : List Insn) :
+    describeTarget ({ op := storeOp sc, argval := s } :: rest) = some s :=
+  C08_target (.var sc s) trivial rest
+
+theorem C08_attr (e : Expr) (a : String) (rest : List Insn) :
+    describeTarget (compileExpr e ++ [{ op := "STORE_ATTR", argval := a }] ++ rest) = some (renderExpr e ++ "." ++ a) := by
+  have := C08_target (.attr e a) trivial rest
+  simpa [compileStore, renderTgt] using this
+
+theorem C08_subscr (c i : Expr) (rest : List Insn) :
+    describeTarget (compileExpr c ++ compileExpr i ++ [{ op := "STORE_SUBSCR" }] ++ rest) = some (renderExpr c ++ "[" ++ renderExpr i ++ "]") := by
+  have := C08_target (.subscr c i) trivial rest
+  simpa [compileStore, renderTgt] using this
+
+/-- A positional call inside the target (`with cm as f(x, y).attr`). -/
+theorem C08_call (pn : Bool) (f : Expr) (args : Args) (a : String) (rest : List Insn) :
+    describeTarget (compileStore (.attr (.call pn f args) a) ++ rest)
+      = some (renderExpr f ++ "(" ++ ", ".intercalate (renderArgs args) ++ ")" ++ "." ++ a) := by
+  have := C08_target (.attr (.call pn f args) a) trivial rest
+  simpa [renderTgt, renderExpr] using this
+
+/-- Unpacking of any arity, nested to any depth. -/
+theorem C08_tuple (ts : Tgts) (hw : WFs ts) (rest : List Insn) :
+    describeTarget (compileStore (.tuple ts) ++ rest) = some (formatTuple (renderTgts ts)) := by
+  have := C08_target (.tuple ts) (by simpa [WF] using hw) rest
+  simpa [renderTgt] using this
+
+/-- A starred element anywhere. -/
+theorem C08_starred (b : Tgts) (s : Tgt) (a : Tgts) (hw : WF (.starred b s a)) (rest : List Insn) :
+    describeTarget (compileStore (.starred b s a) ++ rest) = some (formatTuple (renderTgts b ++ ["*" ++ renderTgt s] ++ renderTgts a)) := by
+  have := C08_target (.starred b s a) hw rest
+  simpa [renderTgt] using this
+
+theorem C08_one_tuple_comma (v : String) : formatTuple [v] = "(" ++ v ++ ",)" := rfl
+
+def supported (op : String) : Bool :=
+  op == "EXTENDED_ARG" || isNameOp op || isAttrOp op || op == "LOAD_CONST" || isSubscrOp op || isSliceOp op ||
+  op == "UNPACK_SEQUENCE" || op == "UNPACK_EX" || isCallOp op || op == "DUP_TOP" || op == "POP_TOP" ||
+  op == "PRECALL" || op == "CACHE" || op == "PUSH_NULL"
+
+theorem c08_step_unsupported (f : Nat) (i : Insn) (rest : List Insn) (st : List String) (h : supported i.op = false) :
+    nextTarget (f + 1) (i :: rest) st = .error .value := by
+  simp only [supported, Bool.or_eq_false_iff] at h
+  obtain ⟨⟨⟨⟨⟨⟨⟨⟨⟨⟨⟨⟨⟨h1, h2⟩, h3⟩, h4⟩, h5⟩, h6⟩, h7⟩, h8⟩, h9⟩, h10⟩, h11⟩, h12⟩, h13⟩, h14⟩ := h
+  simp [nextTarget, h1, h2, h3, h4, h5, h6, h7, h8, h9, h10, h11, h12, h13, h14]
+
+/-- An opcode outside the supported set — right away or after any load-expression prefix — gives `None`. -/
+theorem C08_unsupported_is_none (e : Expr) (i : Insn) (rest : List Insn) (h : supported i.op = false) :
+    describeTarget (compileExpr e ++ i :: rest) = none := by
+  obtain ⟨i0, r, hc, h1, h2⟩ := c08_head_expr e
+  have hrun : nextTarget (2 * (compileExpr e ++ i :: rest).length + 2) (compileExpr e ++ i :: rest) [] = .error .value := by
+    have : 2 * (compileExpr e ++ i :: rest).length + 2
+        = (compileExpr e).length + (((compileExpr e).length + 2 * (i :: rest).length + 1) + 1) := by
+      simp only [List.length_append]; omega
+    rw [this, nt_expr e _ _ []]
+    exact c08_step_unsupported _ i rest _ h
+  rw [hc] at hrun ⊢
+  simp only [List.cons_append, describeTarget, h1, h2, Bool.false_eq_true, if_false] at hrun ⊢
+  rw [hrun]
+
+theorem C08_unsupported_first (i : Insn) (rest : List Insn) (h : supported i.op = false) :
+    describeTarget (i :: rest) = none := by
+  simp only [supported, Bool.or_eq_false_iff] at h
+  have hp : (i.op == "POP_TOP") = false := h.1.1.1.2
+  have hs : (i.op == "STORE_FAST") = false := by
+    have := h.1.1.1.1.1.1.1.1.1.1.1.1.2
+    simp only [isNameOp] at this
+    simp at this ⊢
+    exact this.2.2.2.2.2.1
+  simp only [describeTarget, hp, hs, Bool.false_eq_true, if_false]
+  rw [c08_step_unsupported _ i rest [] (by simp only [supported, Bool.or_eq_false_iff]; exact h)]
+
+/-! Non-vacuity: `with cm as (a, *b.c, d[0]):` -/
+def c08Ex : Tgt := .starred (.cons (.var .fast "a") .nil) (.attr (.var .fast "b") "c") (.cons (.subscr (.var .fast "d") (.const "0")) .nil)
+example : WF c08Ex := by simp [c08Ex, WF, WFs, Tgts.length]
+example : renderTgt c08Ex = "(a, *b.c, d[0])" := by decide
+example : describeTarget (compileStore c08Ex) = some "(a, *b.c, d[0])" := by decide
